@@ -1,6 +1,9 @@
 package types
 
-import "fmt"
+import (
+	"encoding/json"
+	"fmt"
+)
 
 // A Request is the Principal, Action, Resource, and Context portion of an
 // authorization request.
@@ -38,7 +41,21 @@ func (a Decision) String() string {
 func (a Decision) MarshalJSON() ([]byte, error) { return []byte(`"` + a.String() + `"`), nil }
 
 func (a *Decision) UnmarshalJSON(b []byte) error {
-	*a = string(b) == `"allow"`
+	if string(b) == "null" {
+		return nil
+	}
+	var s string
+	if err := json.Unmarshal(b, &s); err != nil {
+		return err
+	}
+	switch s {
+	case "allow":
+		*a = Allow
+	case "deny":
+		*a = Deny
+	default:
+		return fmt.Errorf("invalid decision %q", s)
+	}
 	return nil
 }
 
